@@ -169,6 +169,7 @@ type Sched struct {
 	wgs      map[uintptr]*vwg
 	onces    map[uintptr]*vonce
 	atoms    map[uintptr]*vatom
+	timers   map[uintptr]*vtimer
 	aborting bool
 	live     sync.WaitGroup
 	Failure  string
@@ -457,12 +458,130 @@ func TimeSleep(d time.Duration) {
 // Only for use by invariants evaluated by the driver while all threads are parked.
 func ClockPeek() time.Duration { return time.Duration(S.clock) }
 
-// TimeNewTicker returns a ticker that never fires within the horizon.
-func TimeNewTicker(d time.Duration) *time.Ticker {
+// ---- virtual timers ----
+//
+// A timer is a channel whose receive is enabled whenever the timer is armed:
+// "time passes until the deadline" is a transition of the receiving thread
+// (it moves the virtual clock to the deadline unless the clock is frozen).
+// Whether the timer or a competing select arm (a stop channel, say) wins is
+// therefore an explored choice. A ticker fires at most TickBudget times per
+// execution (default 0: never), so that executions stay finite.
+
+type vtimer struct {
+	deadline int64
+	period   int64 // > 0: ticker
+	armed    bool
+	left     int // remaining ticks of a ticker
+	ver      uint64
+	name     uint64
+}
+
+// TickBudget is how often every ticker created afterwards may fire.
+var TickBudget int
+
+// Timer mirrors *time.Timer for instrumented code.
+type Timer struct {
+	C    <-chan time.Time
+	c    chan time.Time
+	real *time.Timer
+}
+
+// Ticker mirrors *time.Ticker for instrumented code.
+type Ticker struct {
+	C    <-chan time.Time
+	c    chan time.Time
+	real *time.Ticker
+}
+
+func (s *Sched) newTimer(d time.Duration, period time.Duration, left int) chan time.Time {
+	c := make(chan time.Time, 1)
+	if d < 0 {
+		d = 0
+	}
+	dl := s.clock
+	if dl > math.MaxInt64-int64(d) {
+		dl = math.MaxInt64
+	} else {
+		dl += int64(d)
+	}
+	s.timers[ptr(c)] = &vtimer{deadline: dl, period: int64(period), armed: true, left: left}
+	return c
+}
+
+func TimeNewTimer(d time.Duration) *Timer {
+	s := S
+	if s == nil || !s.active {
+		rt := time.NewTimer(d)
+		return &Timer{C: rt.C, real: rt}
+	}
+	c := s.newTimer(d, 0, 1)
+	return &Timer{C: c, c: c}
+}
+
+func TimeAfter(d time.Duration) <-chan time.Time { return TimeNewTimer(d).C }
+
+// Stop disarms the timer; it reports whether the timer was still armed.
+func (t *Timer) Stop() bool {
+	if t.real != nil {
+		return t.real.Stop()
+	}
+	s := S
+	if s == nil || !s.active {
+		return false
+	}
+	tm := s.timers[ptr(t.c)]
+	was := tm.armed
+	tm.armed = false
+	return was
+}
+
+// Reset re-arms the timer to fire after d.
+func (t *Timer) Reset(d time.Duration) bool {
+	if t.real != nil {
+		return t.real.Reset(d)
+	}
+	s := S
+	tm := s.timers[ptr(t.c)]
+	was := tm.armed
+	if d < 0 {
+		d = 0
+	}
+	tm.deadline, tm.armed, tm.left = s.clock+int64(d), true, 1
+	return was
+}
+
+// TimeNewTicker returns a ticker that fires at most TickBudget times.
+func TimeNewTicker(d time.Duration) *Ticker {
 	if d <= 0 {
 		panic("non-positive interval for NewTicker")
 	}
-	return &time.Ticker{C: make(chan time.Time)}
+	s := S
+	if s == nil || !s.active {
+		rt := time.NewTicker(d)
+		return &Ticker{C: rt.C, real: rt}
+	}
+	c := s.newTimer(d, d, TickBudget)
+	return &Ticker{C: c, c: c}
+}
+
+func (t *Ticker) Stop() {
+	if t.real != nil {
+		t.real.Stop()
+		return
+	}
+	if s := S; s != nil && s.active {
+		s.timers[ptr(t.c)].armed = false
+	}
+}
+
+func (t *Ticker) Reset(d time.Duration) {
+	if t.real != nil {
+		t.real.Reset(d)
+		return
+	}
+	s := S
+	tm := s.timers[ptr(t.c)]
+	tm.period, tm.deadline, tm.armed = int64(d), s.clock+int64(d), true
 }
 
 // ---------------------------------------------------------------------------
@@ -480,6 +599,13 @@ func (s *Sched) chanOf(a arm) *vchan {
 func (s *Sched) armTrans(t *Thread, i int, a arm, r []trans) []trans {
 	if a.ch == 0 {
 		return r // nil channel: never ready
+	}
+	if tm := s.timers[a.ch]; tm != nil {
+		// receive from a timer/ticker channel: time may pass until it fires
+		if !a.send && tm.armed && tm.left > 0 {
+			return append(r, trans{t: t, arm: i})
+		}
+		return r
 	}
 	c := s.chanOf(a)
 	n0 := len(r)
@@ -730,6 +856,23 @@ func (s *Sched) apply(tr trans) {
 			break
 		}
 		a := o.arms[tr.arm]
+		if tm := s.timers[a.ch]; tm != nil {
+			o.ridx = tr.arm
+			s.Last.Obj = a.ch
+			if s.Mode != ClockFrozen && tm.deadline > s.clock {
+				s.clock = tm.deadline
+			}
+			tm.left--
+			if tm.period > 0 {
+				tm.deadline += tm.period
+			} else {
+				tm.armed = false
+			}
+			tm.ver++
+			o.rval, o.rok = base.Add(time.Duration(s.clock)), true
+			note(name(&tm.name, 9), tm.ver, uint64(s.clock), uint64(tr.arm))
+			break
+		}
 		c := s.chans[a.ch]
 		o.ridx = tr.arm
 		s.Last.Obj = a.ch
@@ -957,7 +1100,7 @@ func (s *Sched) describe(tr trans) string {
 // Run executes main under the scheduler: replays o.Prefix, then takes choice 0.
 func Run(main func(), o RunOpts) (res Result) {
 	s := &Sched{back: make(chan struct{}, 1), chans: map[uintptr]*vchan{}, mus: map[uintptr]*vmutex{}, wgs: map[uintptr]*vwg{},
-		onces: map[uintptr]*vonce{}, atoms: map[uintptr]*vatom{}, Mode: o.Mode, active: true}
+		onces: map[uintptr]*vonce{}, atoms: map[uintptr]*vatom{}, timers: map[uintptr]*vtimer{}, Mode: o.Mode, active: true}
 	S = s
 	maxSteps := o.MaxSteps
 	if maxSteps == 0 {
